@@ -2600,7 +2600,7 @@ HandleRFBServerMessage(rfbClient* client)
 
 #ifdef LIBVNCSERVER_HAVE_LIBZ
     ilen = rfbClientSwap32IfLE(msg.sct.length);
-    msg.sct.length = ilen < 0 ? -ilen : ilen;
+    msg.sct.length = ilen < 0 ? -(uint32_t)ilen : (uint32_t)ilen;
 #else
     msg.sct.length = rfbClientSwap32IfLE(msg.sct.length);
 #endif
